@@ -27,8 +27,8 @@ META = {
 
 URIS = ('urn:a', 'urn:b', trees.NS_XHTML, trees.NS_SVG)
 # 'html' is also the prefix soupsieve's internal HTML-only selector lists use: a caller or document binding of it must not leak into them
-DOC_PREFIXES = ('p', 'q', 'svg', 'h', 'html')
-MAP_PREFIXES = ('p', 'q', 'svg', 'x', 'P', 'html')
+DOC_PREFIXES = ('p', 'q', 'svg', 'h', 'html', 'dc.terms')
+MAP_PREFIXES = ('p', 'q', 'svg', 'x', 'P', 'html', 'dc.terms', '1x')
 NAMES = ('a', 'b', 'c')
 ATTRS = ('k', 'href', 'lang')
 
